@@ -316,32 +316,62 @@ def bins_of(z, edges):
     return b
 
 
+def groups_of(G):
+    """the rows of a catalog in groups that can be excluded as a whole: per patch the ordinary rows (with the direction of their
+    mean and the largest separation from it), every row placed on purpose by itself"""
+    out = []
+    for k in np.unique(G["pid"]):
+        idx = np.flatnonzero((G["pid"] == k) & (G["tag"] == 0))
+        if len(idx):
+            m = G["v"][idx].mean(axis=0); m /= np.linalg.norm(m)
+            out.append((idx, m, float(angle(G["v"][idx], m).max())))
+    for i in np.flatnonzero(G["tag"] != 0):
+        out.append((np.array([i]), G["v"][i], 0.0))
+    return out
+
+
 def brute(A, B, lo2, hi2, edges, npatch):
     """sum of w_a * w_b over the pairs with lo < separation <= hi of the redshift bin of a, per (bin, patch of a, patch of b);
-    A carries the redshifts.  Loops over the rows of the smaller catalog.  -> (table, smallest relative distance of a
-    squared chord from a limit)"""
+    A carries the redshifts.  All pairs: loops over the rows of the smaller catalog; a group of rows of the larger one is left
+    out for a row only when the triangle inequality puts all of it beyond the largest / below the smallest limit by 0.1 %.
+    -> (table, smallest relative distance of a squared chord from a limit)"""
     nb = len(lo2)
     out = np.zeros((nb, npatch, npatch))
     gap = np.inf
+    a_small = len(A["v"]) <= len(B["v"])
+    S, G = (A, B) if a_small else (B, A)
     ba = bins_of(A["z"], edges)
-    if len(A["v"]) <= len(B["v"]):
-        for k in np.flatnonzero(ba >= 0):
-            b = ba[k]
-            d2 = np.sum((B["v"] - A["v"][k]) ** 2, axis=1)
-            sel = (d2 > lo2[b]) & (d2 <= hi2[b])
-            if sel.any():
-                out[b, A["pid"][k], :] += A["w"][k] * np.bincount(B["pid"][sel], weights=B["w"][sel], minlength=npatch)
-            gap = min(gap, float(np.min(np.abs(d2 / lo2[b] - 1.0))), float(np.min(np.abs(d2 / hi2[b] - 1.0))))
-    else:
-        ok = ba >= 0
-        va, wa, pa, bb = A["v"][ok], A["w"][ok], A["pid"][ok], ba[ok]
-        l2, h2 = lo2[bb], hi2[bb]
-        for k in range(len(B["v"])):
-            d2 = np.sum((va - B["v"][k]) ** 2, axis=1)
+    amax = 2.0 * math.asin(math.sqrt(float(hi2.max())) / 2.0) * 1.001
+    amin = 2.0 * math.asin(math.sqrt(float(lo2.min())) / 2.0) * 0.999
+    grp = []
+    for idx, m, r in groups_of(G):
+        if not a_small:
+            idx = idx[ba[idx] >= 0]
+            if not len(idx):
+                continue
+        g = dict(v=G["v"][idx], w=G["w"][idx], pid=G["pid"][idx], m=m, r=r)
+        if not a_small:
+            g["b"] = ba[idx]; g["l2"] = lo2[g["b"]]; g["h2"] = hi2[g["b"]]; g["key"] = g["b"] * npatch + g["pid"]
+        grp.append(g)
+    for k in range(len(S["v"])):
+        if a_small and ba[k] < 0:
+            continue
+        sv, sw, sp = S["v"][k], S["w"][k], S["pid"][k]
+        for g in grp:
+            dc = float(angle(g["m"][None, :], sv)[0])
+            if dc - g["r"] > amax or dc + g["r"] < amin:
+                continue
+            d2 = np.sum((g["v"] - sv) ** 2, axis=1)
+            if a_small:
+                l2, h2 = lo2[ba[k]], hi2[ba[k]]
+            else:
+                l2, h2 = g["l2"], g["h2"]
             sel = (d2 > l2) & (d2 <= h2)
             if sel.any():
-                flat = np.bincount(bb[sel] * npatch + pa[sel], weights=wa[sel], minlength=nb * npatch).reshape(nb, npatch)
-                out[:, :, B["pid"][k]] += B["w"][k] * flat
+                if a_small:
+                    out[ba[k], sp, :] += sw * np.bincount(g["pid"][sel], weights=g["w"][sel], minlength=npatch)
+                else:
+                    out[:, :, sp] += sw * np.bincount(g["key"][sel], weights=g["w"][sel], minlength=nb * npatch).reshape(nb, npatch)
             gap = min(gap, float(np.min(np.abs(d2 / l2 - 1.0))), float(np.min(np.abs(d2 / h2 - 1.0))))
     return out, gap
 
@@ -608,7 +638,7 @@ def run_big(ctx, yaw, edges_choices):
         # ---- twins
         row_twins = ["shuffle", "move", rng.choice(["reverse", "shift1", "sort"])] if ctx.quick() else \
             ["shuffle", "shuffle", "move", "move", "reverse", "shift1", "sort"]
-        twins = [("rows:" + k, k) for k in row_twins] + [("rot", None), ("centres", None)]
+        twins = [("rows:" + k, k) for k in row_twins] + ([("rot", None), ("centres", None)] if not ctx.quick() else [("rot", None)] if sc % 2 else [("centres", None)])
         for tr, kind in twins:
             fr, labels, perm, ords, chs = frame, ident, None, orders, chunks
             meta = dict(par, transform=tr)
